@@ -20,7 +20,23 @@ EXTENDS TraceLib, Downsample
 
 RawOf(e) == [ts |-> e.in.ts, vs |-> e.in.vs, ks |-> e.in.ks]
 
-Judge(e) ==
+(* Phase 2: native histogram series (in.kind = "hist"): in.hv the vectors <<count, sum,     *)
+(* buckets>>, in.ks "H" | "STALE", in.gauge, in.k the number of buckets; hchunks = decoded   *)
+(* chunks [mint, maxt, ts, cnt, hsum, hctr].  The statement's count and sum clauses apply    *)
+(* (histograms have no min / max aggregate); the counter aggregate is only compared with the *)
+(* transcription (DRIFT).                                                                     *)
+HRawOf(e) == [ts |-> e.in.ts, ks |-> e.in.ks, hv |-> e.in.hv, gauge |-> e.in.gauge]
+HZero(e) == [i \in 1..(e.in.k + 2) |-> 0]
+HJudge(e) ==
+    LET raw == HRawOf(e)  r == e.in.res  cs == e.hchunks IN
+    IF e.got.kind # "ok" THEN {"downsampling-produces-aggregates"}
+    ELSE IF ~e.ok \/ ~e.aligned THEN {"histogram-count-and-sum-equal-window-aggregates"}
+    ELSE
+      (IF HChunksExact(raw, r, cs, HZero(e)) THEN {} ELSE {"histogram-count-and-sum-equal-window-aggregates"})
+      \cup (IF HTotalsEqual(raw, cs, HZero(e)) THEN {} ELSE {"histogram-totals-equal-raw-totals"})
+      \cup (IF ChunksOrdered(cs) THEN {} ELSE {"chunks-ordered-non-overlapping"})
+
+FJudge(e) ==
     LET raw == RawOf(e)  r == e.in.res  cs == e.chunks IN
     IF e.got.kind # "ok" THEN {"downsampling-produces-aggregates"}
     ELSE IF ~e.ok \/ ~e.aligned
@@ -40,9 +56,13 @@ Judge(e) ==
                /\ \A a \in {"cnt", "sum", "min", "max"} : ReadBackYields(cs, a, e.rb[a], e.in.q[1], e.in.q[2])
             THEN {} ELSE {"read-back-yields-these-values"})
 
+Judge(e) == IF e.in.kind = "hist" THEN HJudge(e) ELSE FJudge(e)
+
 (* Model conformance (never a verdict): the algorithm-level transcription predicts the      *)
 (* chunks exactly, counter aggregate included.                                               *)
-Drift(e) == e.got.kind = "ok" /\ e.ok /\ e.aligned /\ e.chunks # AlgoRaw(RawOf(e), e.in.res, e.nc)
+Drift(e) == e.got.kind = "ok" /\ e.ok /\ e.aligned /\
+            IF e.in.kind = "hist" THEN e.hchunks # HAlgoRaw(HRawOf(e), e.in.res, e.nc)
+                                  ELSE e.chunks # AlgoRaw(RawOf(e), e.in.res, e.nc)
 
 VARIABLE l
 TraceInit == l = 1
